@@ -7,7 +7,7 @@ RUN_MODULE = "C08.Run"
 TWO_PHASE = True   # the model receives  case <TAB> observation: is it what the model predicts, do the laws hold on it
 RULE = ("law cases: triples of random nested values (depth <= 3; arrays, dicts, structures, variants, fds) whose scalars come from "
         "boundary classes (0, 1, min, max, +-0, +-inf, quiet/signalling/negative NaNs with payloads, subnormals, empty and multi-byte strings, "
-        "signature strings that Signature::cmp cannot tell apart), arranged as equal copies / one-leaf mutants / same-shape values / "
+        "signature strings of all kinds incl. the ones Signature::cmp could not tell apart before fix 668536e1), arranged as equal copies / one-leaf mutants / same-shape values / "
         "container-signature-only differences (empty ay vs ab, empty dicts) / variant changes / independent values; plus ill-typed "
         "constructions (append mismatch, empty structure). conv cases: a value of each of 57 Rust types (scalars, String, Signature, "
         "ObjectPath, Value, Vec, HashMap, tuples, nested) converted to Value and back. non-trivial = the case has a container, a variant or a NaN")
@@ -414,13 +414,15 @@ def search(rng, bad_cases):
 ENABLED = True
 LEVEL = "proof"
 LEVEL_TEXT = ("Theorems in coq/theories/Properties/C08.v over an executable Gallina mirror of Value/Array/Dict/Structure/Signature "
-              "(derived PartialEq/PartialOrd, hand-written Ord and Hash, value_signature, try_clone, try_to_owned, the std-type conversions): "
-              "for ALL values == is symmetric and transitive, cmp is antisymmetric, equal values hash equally (token streams fed to the "
-              "Hasher are identical, +0/-0 included), clones/owned copies are identical up to dup'ed descriptors and keep the signature, "
-              "well-formed values are typed by their reported signature; the remaining laws (reflexivity, cmp consistent with ==, "
-              "transitivity of cmp, PartialOrd = Ord, conversion round trip) are REFUTED on this tree by machine-checked witnesses and proved "
-              "on the complement of explicit decidable classes (NaN anywhere; two different signatures reached by a comparison; tuples with a "
-              "Value member). Model and code are tied by a differential check of all observations on generated triples.")
-LEVEL_NOTE = ("partial: full-strength statement refuted (known findings nan, sigcmp, fd_dup, tuple_variant); the laws hold outside these "
-              "classes. Trusted: Coq kernel; the hand-written model incl. the std derives and BTreeMap-as-sorted-list; harness hvalue; "
-              "Maybe (gvariant) and Optional/Option conversions are not modelled.")
+              "(derived PartialEq/PartialOrd, hand-written Ord and Hash, value_signature, try_clone, try_to_owned, the std-type conversions; "
+              "Signature::cmp as repaired by fix commit 668536e1): for ALL values == is symmetric and transitive, cmp is antisymmetric, equal "
+              "values hash equally (token streams fed to the Hasher are identical, +0/-0 included), clones/owned copies are identical up to "
+              "dup'ed descriptors and keep the signature, well-formed values are typed by their reported signature; Signature's Ord is a "
+              "total order consistent with its == on all signatures. The remaining laws (reflexivity, cmp consistent with ==, transitivity "
+              "of cmp, PartialOrd = Ord, conversion round trip) are REFUTED on this tree by machine-checked witnesses and proved on the "
+              "complement of explicit decidable classes: for all NaN-free values (ordering, reflexivity), for values without descriptors "
+              "(owned copies ==), for std values without a tuple that has a Value member (round trip). Model and code are tied by a "
+              "differential check of all observations on generated triples.")
+LEVEL_NOTE = ("partial: full-strength statement refuted (known findings nan, fd_dup, tuple_variant; sigcmp fixed in 668536e1); the laws hold "
+              "outside these classes. Trusted: Coq kernel; the hand-written model incl. the std derives and BTreeMap-as-sorted-list; harness "
+              "hvalue; Maybe (gvariant) and Optional/Option conversions are not modelled.")
